@@ -1100,6 +1100,8 @@ fn evaluate(d: &Design, propagate: bool) -> Eval {
 
         // (1) completeness + (2) coordinates
         let mut exp_by_key: BTreeMap<(Cls, u16, u16, u16), Vec<&Expected>> = BTreeMap::new();
+        // (G, M) pairs with an entry that failed (1)/(2): not shaped again
+        let mut failed_pairs: BTreeSet<(String, String)> = BTreeSet::new();
         for e in &expected {
             let key = (e.kind, gid[&e.g], e.comp as u16, gid[&e.m]);
             exp_by_key.entry(key).or_default().push(e);
@@ -1112,6 +1114,7 @@ fn evaluate(d: &Design, propagate: bool) -> Eval {
                        "source_base_anchor": e.base[m], "source_mark_anchor": e.mark[m], "expected_base_anchor": wb, "expected_mark_anchor": wm, "font": extra})
             };
             if cands.is_empty() {
+                failed_pairs.insert((e.g.clone(), e.m.clone()));
                 ev.viol.push(Viol {
                     key: format!("mark-pair-not-covered:{}{note}", e.kind.name()),
                     what: format!("no mark attachment subtable places {} on {} (component {}, anchor group {}) at master {m}", e.m, e.g, e.comp, e.group),
@@ -1121,6 +1124,7 @@ fn evaluate(d: &Design, propagate: bool) -> Eval {
             }
             let good: Vec<&&&MarkAttachment> = cands.iter().filter(|a| near(a.base_anchor, wb, tol) && near(a.mark_anchor, wm, tol)).collect();
             if good.is_empty() {
+                failed_pairs.insert((e.g.clone(), e.m.clone()));
                 // is some other expected entry of the same key (another shared group) the one these candidates serve?
                 let seen: Vec<Value> = cands.iter().map(|a| json!({"lookup": a.lookup_index, "base_anchor": a.base_anchor, "mark_anchor": a.mark_anchor})).collect();
                 let base_ok = cands.iter().any(|a| near(a.base_anchor, wb, tol));
@@ -1248,6 +1252,9 @@ fn evaluate(d: &Design, propagate: bool) -> Eval {
                 continue;
             }
             let e = es[0];
+            if failed_pairs.contains(&(e.g.clone(), e.m.clone())) {
+                continue;
+            }
             // ligature: a mark that was not ligated with the glyph goes to the LAST component
             let (want, expect_attach): (Option<(Pos, Pos)>, bool) = if e.kind == Cls::Lig {
                 let ncomp = model.eff[&e.g][0].iter().filter_map(|a| split_attaching(&a.0).1).max().unwrap_or(0);
